@@ -30,6 +30,9 @@ def _agent(cfg):
 
 
 def _apply(agent, ev):
+    if ev[0] == "reset":
+        agent.reset()
+        return None
     if ev[0] == "learn":
         agent.learn(0, ev[1], ev[2], 0)
         return None
@@ -48,6 +51,11 @@ def _ref_learn(Q, cnt, alpha, a, r):
 def _judge_event(cfg, hist, ev, agent_before_Q, agent, ret, refQ, refcnt):
     v = []
     n = cfg["n"]
+    if ev[0] == "reset":
+        # what reset() sets the estimates to is not the property's subject; that estimates and counts are two vectors of n numbers is
+        if len(agent.Q) != n or len(agent.actions_count) != n or agent.Q is agent.actions_count:
+            v.append(("reset-state", f"after reset(): Q={agent.Q!r}, actions_count={agent.actions_count!r} (same object: {agent.Q is agent.actions_count})"))
+        return v
     if ev[0] == "learn":
         a = ev[1]
         Q = [float(x) for x in agent.Q]
@@ -81,6 +89,8 @@ def _replay_hist(cfg, hist):
         ret = _apply(agent, ev)
         if ev[0] == "learn":
             refQ, refcnt = _ref_learn(refQ, refcnt, cfg["alpha"], ev[1], ev[2])
+        elif ev[0] == "reset":
+            refQ, refcnt = [float(x) for x in agent.Q], [int(x) for x in agent.actions_count]
         else:
             choices.append(ret)
         vs += _judge_event(cfg, hist[:k], ev, before, agent, ret, refQ, refcnt)
@@ -90,7 +100,7 @@ def _replay_hist(cfg, hist):
 def agent_cell(cell):
     cfg, depth = cell["cfg"], cell["depth"]
     n = cfg["n"]
-    events = [("policy",)] + [("learn", a, r) for a in range(n) for r in REWARDS]
+    events = [("policy",)] + [("learn", a, r) for a in range(n) for r in REWARDS] + [("reset",)]
     res = {"evaluations": 0, "nontrivial": 0, "states": 0, "transitions": 0, "traces": 0, "stats": {}, "outcomes": set(), "violations": [], "samples": []}
     seen = set()
 
@@ -110,6 +120,8 @@ def agent_cell(cell):
             if ev[0] == "learn":
                 q2, c2 = _ref_learn(refQ, refcnt, cfg["alpha"], ev[1], ev[2])
                 res["nontrivial"] += 1
+            elif ev[0] == "reset":
+                q2, c2 = [float(x) for x in a2.Q], [int(x) for x in a2.actions_count]
             else:
                 q2, c2 = refQ, refcnt
                 res["outcomes"].add(("choice", ret))
@@ -139,6 +151,28 @@ def agent_cell(cell):
         if c1 != c2:
             res["violations"].append({"key": "choices-not-deterministic", "what": f"cfg={cfg} events {pattern}: choices {c1} vs {c2} for twin agents",
                                       "case": {"mode": "twin", "cfg": cfg, "hist": [list(e) for e in pattern]}})
+    # re-seeding a USED agent through the public random_state setter (what a scheduler does when the agent enters a second calibration):
+    # from then on it chooses like a new agent with that seed and the same estimates
+    if cfg["eps"] > 0:
+        from black_it.schedulers.rl.agents.epsilon_greedy import MABEpsilonGreedy
+
+        for pattern in itertools.product([("policy",), ("learn", 0, 1.0), ("learn", n - 1, 0.25)], repeat=min(depth, 3)):
+            for npol in (0, 3, 12):
+                used = _agent(cfg)
+                for e in pattern:
+                    _apply(used, e)
+                for _ in range(npol):
+                    used.policy(0)
+                used.random_state = 77
+                twin = MABEpsilonGreedy(n_actions=n, alpha=cfg["alpha"], eps=cfg["eps"], initial_values=cfg["init"], random_state=77)
+                twin.Q, twin.actions_count = list(used.Q), list(used.actions_count)
+                c1 = [used.policy(0) for _ in range(8)]
+                c2 = [twin.policy(0) for _ in range(8)]
+                res["evaluations"] += 1
+                if c1 != c2:
+                    res["violations"].append({"key": "reseed-does-not-restart", "what": f"cfg={cfg} after events {pattern} and {npol} more policy() calls, random_state = 77: choices {c1}, a new agent with seed 77 and the same estimates chooses {c2}",
+                                              "case": {"mode": "reseed", "cfg": cfg, "hist": [list(e) for e in pattern], "npol": npol}})
+                    break
     res["samples"] = [{"cfg": cfg, "events": [list(e) for e in events[:3]], "depth": depth}]
     res["outcomes"] = sorted(res["outcomes"], key=repr)
     return res
@@ -253,6 +287,10 @@ def replay_case(case):
         np.random.random(3)
         _, c2 = _replay_hist(case["cfg"], case["hist"])
         return [{"key": "choices-not-deterministic", "what": f"{c1} vs {c2}"}] if c1 != c2 else []
+    if case["mode"] == "reseed":
+        r = agent_cell({"cfg": case["cfg"], "depth": 1})
+        return [{"key": v["key"], "what": v["what"]} for v in r["violations"] if v["key"] == "reseed-does-not-restart"] or \
+               [{"key": v["key"], "what": v["what"]} for v in agent_cell({"cfg": case["cfg"], "depth": 3})["violations"] if v["key"] == "reseed-does-not-restart"]
     if case["mode"] == "env":
         return [{"key": k, "what": w} for k, w in _judge_env(case["boot"], tuple(case["seq"]), case["via"])]
     r = env_cell({"values": [1.0], "length": 0, "boots": [3.0]})
